@@ -357,6 +357,8 @@ pub struct RunOutput {
     pub wall: Duration,
     pub parked: u32,
     pub busy_idle_polls: u64,
+    /// Extra gates released together with another one at the same quiescent point.
+    pub multi_releases: u64,
 }
 
 impl RunOutput {
@@ -380,6 +382,7 @@ impl RunOutput {
             wall: Duration::ZERO,
             parked: 0,
             busy_idle_polls: 0,
+            multi_releases: 0,
         }
     }
 }
@@ -434,6 +437,7 @@ pub fn drive(
         wall: Duration::ZERO,
         parked: 0,
         busy_idle_polls: 0,
+        multi_releases: 0,
     };
     let t0 = Instant::now();
     let mut streak: u64 = 0;
@@ -572,8 +576,31 @@ pub fn drive(
                         g.released = true;
                         g.waker.clone()
                     });
+                    let mut wakers = vec![w];
+                    // now and then several gates open between two polls
+                    if case.sched_multi_pct > 0 && blocked.len() > 1 && rng.below(100) < case.sched_multi_pct as usize {
+                        let extra = rng.range(1, 2.min(blocked.len() - 1));
+                        for _ in 0..extra {
+                            let left = with_rs(|rs| rs.gates.iter().filter(|g| !g.released).count());
+                            if left == 0 {
+                                break;
+                            }
+                            let pick = rng.below(left);
+                            let (owner, w) = with_rs(|rs| {
+                                let g = rs.gates.iter_mut().filter(|g| !g.released).nth(pick).expect("gate");
+                                g.released = true;
+                                (g.owner, g.waker.clone())
+                            });
+                            qp.decision.push_str(&format!("+gate:{owner}"));
+                            out.sched_hash = mix(out.sched_hash, 0xA000 + pick as u64);
+                            out.multi_releases += 1;
+                            wakers.push(w);
+                        }
+                    }
                     out.qpoints.push(qp);
-                    w.wake();
+                    for w in wakers {
+                        w.wake();
+                    }
                     streak = 0;
                     continue;
                 }
